@@ -81,3 +81,15 @@ Print Assumptions C13_cont_restores.
 Theorem C13_cont_refused : forall r, r_cont r = StStopped -> do_cont r = (r, err E_CantContinue).
 Proof. exact cont_refused. Qed.
 Print Assumptions C13_cont_refused.
+
+(* ---- a pending key wait (INKEY$): asking again changes nothing, and CONT after an interrupt comes back to the same wait ---- *)
+Theorem C13_key_wait_asks_again : forall O r k, r_state r = StInkey -> rt_execute O r k = Ok (r, EvInkey).
+Proof. exact key_wait_asks_again. Qed.
+Print Assumptions C13_key_wait_asks_again.
+
+Theorem C13_key_wait_resumes : forall O r k, r_state r = StRunning -> r_cont r = StInkey ->
+  let r' := fst (do_cont r) in
+  snd (do_cont r) = Ok (Some EvRunning) /\ r_state r' = StInkey /\ r_pc r' = r_cont_pc r /\ r_stack r' = r_stack r
+  /\ r_vars r' = r_vars r /\ rt_execute O r' k = Ok (r', EvInkey).
+Proof. exact key_wait_resumes. Qed.
+Print Assumptions C13_key_wait_resumes.
